@@ -243,6 +243,10 @@ func Main(t *testing.T, property string, components any, prop func(r *Run)) {
 		if s == 0 {
 			s = 1
 		}
+		if v := envInt("VERIF_RAPID_SEED", 0); v != 0 && b == 0 {
+			s = uint64(v)
+		}
+		simrt.LivelockInfo.Store(fmt.Sprintf("rapid_seed=%d batch=%d", s, b))
 		_ = flag.Set("rapid.seed", strconv.FormatUint(s, 10))
 		ok = t.Run("b"+strconv.Itoa(b), rapid.MakeCheck(wrapped))
 		cur.Batches++
